@@ -544,7 +544,7 @@ int main(int argc, char **argv)
 			vf_profile_t prof;
 			vf_perturb_draw(&r, &prof);
 			for (int k = 0; k < 40; k++) run_specific_trial(&r);
-			for (int k = 0; k < 400; k++) run_racing_setters(&r);
+			for (int k = 0; k < 120; k++) run_racing_setters(&r);
 			vf_perturb_off();
 			vf_emit("trial", "\"n\":40,\"sig\":\"specific-%d-%d\",\"nontrivial\":true,\"sample\":{\"part\":\"get_specific over 40 random hierarchies x 8 submission paths x 5 keys\",\"perturb\":\"%s\"}", prof.kind, idx % 16, prof.desc);
 		}
